@@ -53,19 +53,72 @@ McEmit == ph # "done" \/ ~Supported(inp) \/ inp = <<>> \/ (pf = "D" /\ ~HasUd(in
           \/ PrintT(ToJson([kind |-> "cls", pf |-> pf, cls |-> inp]))
 
 \* ---------------- the argument grid of the built-in check -----------------------------------
-\* sparen = "(" and sbrack = "[": strings that are malformed as a pattern (match / search / split / replace / RegExp take patterns)
-ArgClasses == <<"undefined", "null", "nan", "inf", "ninf", "m1", "zero", "p31", "p53", "e21", "half", "s7", "sx", "sparen", "sbrack", "obj", "arr", "fn">>
-QuickArgClasses == <<"undefined", "null", "nan", "inf", "m1", "zero", "p31", "e21", "half", "s7", "sx", "sparen", "sbrack", "obj", "arr", "fn">>
-ArgSet == LET sq == IF Quick THEN QuickArgClasses ELSE ArgClasses IN {sq[ai] : ai \in 1..Len(sq)}
-ArgVectors == {<<>>} \cup {<<xa>> : xa \in ArgSet} \cup {<<xa, ya>> : xa \in ArgSet, ya \in ArgSet}
-Huge == {"p31", "p53", "e21"}
+\* An argument class is a name the driver renders as JavaScript text (ARG_SRC / arg_src of checks/c04_driver.py).
+\*   core    : the values the property names (missing = the shorter vector); sparen = "(" and sbrack = "[" are strings that are
+\*             malformed as a pattern (match / search / split / replace / RegExp take patterns)
+\*   mirror  : the negative counterpart of every numeric core value (-0, -(2^31 + 1), -2^53, -1e21, -0.5), true, the empty string
+\*   kind    : objects of the built-in kinds (a regular expression, an ArrayBuffer, a typed array, a non-empty array)
+\*   routed  : every numeric value reached by one of the three other routes to ToNumber: s_<v> = the string of the number
+\*             ('-Infinity'), v_<v> = an object whose valueOf returns it, a_<v> = the one-element array [v]
+SeqSet(sq) == {sq[ai] : ai \in 1..Len(sq)}
+CoreClasses == <<"undefined", "null", "nan", "inf", "ninf", "m1", "zero", "p31", "p53", "e21", "half", "s7", "sx", "sparen", "sbrack", "obj", "arr", "fn">>
+MirrorClasses == <<"nzero", "n31", "n53", "ne21", "nhalf", "true", "sempty">>
+KindClasses == <<"regex", "abuf", "tarr", "arr12">>
+NumVals == <<"nan", "inf", "ninf", "m1", "zero", "nzero", "p31", "n31", "p53", "n53", "e21", "ne21", "half", "nhalf">>
+Routes == <<"s", "v", "a">>
+AllRouted == {rt \o "_" \o nv : rt \in SeqSet(Routes), nv \in SeqSet(NumVals)}
+\* quick: every route, and over the three routes every sign / magnitude class
+QuickRouted == {"s_inf", "s_ninf", "s_nan", "s_e21", "s_nzero", "v_ninf", "v_nan", "v_p31", "v_nhalf", "a_ninf", "a_m1", "a_p53"}
+Routed == IF Quick THEN QuickRouted ELSE AllRouted
+CoreSet == SeqSet(CoreClasses)
+ExtraSet == SeqSet(MirrorClasses) \cup SeqSet(KindClasses) \cup Routed
+ArgSet == CoreSet \cup ExtraSet
+\* The quick sub-grid: the full product of the core classes, every other class in either position next to each of three
+\* benign leads, every class in the third position after three lead pairs (number, number / object, name / buffer, offset).
+\* Thorough: the full product for lengths <= 2, (leads x leads x every class) for length 3.
+Lead == {"zero", "sx", "obj"}
+LeadPairs == {<<"zero", "zero">>, <<"obj", "sx">>, <<"abuf", "zero">>}
+Lead3 == Lead \cup {"undefined", "abuf"}
+Pairs == IF Quick THEN {<<xa, ya>> : xa \in CoreSet, ya \in CoreSet} \cup {<<xa, ya>> : xa \in Lead, ya \in ExtraSet}
+                       \cup {<<xa, ya>> : xa \in ExtraSet, ya \in Lead}
+         ELSE {<<xa, ya>> : xa \in ArgSet, ya \in ArgSet}
+Triples == IF Quick THEN {lp \o <<za>> : lp \in LeadPairs, za \in ArgSet}
+           ELSE {<<xa, ya, za>> : xa \in Lead3, ya \in Lead3, za \in ArgSet}
+ArgVectors == {<<>>} \cup {<<xa>> : xa \in ArgSet} \cup Pairs \cup Triples
+\* the vectors given (quick tier) to the receivers that vary the shape / value of a receiver kind (empty array, empty string,
+\* NaN, -Infinity, 1e21): every class alone, and the core classes after each lead.  Thorough: all vectors.
+ShortVector(av) == Len(av) <= 1 \/ (Len(av) = 2 /\ av[1] \in Lead /\ av[2] \in CoreSet)
+HugeVals == {"p31", "p53", "e21"}
+Huge == HugeVals \cup {rt \o "_" \o hv : rt \in SeqSet(Routes), hv \in HugeVals}
 \* calls that legitimately allocate memory proportional to a numeric argument are not made with huge arguments
 Allocating == {"repeat", "Array", "ArrayBuffer", "Int8Array", "Uint8Array", "Uint8ClampedArray", "Int16Array", "Uint16Array",
                "Int32Array", "Uint32Array", "Float32Array", "Float64Array", "padStart", "padEnd", "fill", "from", "constructor"}
 CallSupported(fname, args) == ~(fname \in Allocating /\ \E ai \in 1..Len(args) : args[ai] \in Huge)
 GridInit == ph = "start" /\ pf = "" /\ inp = <<>> /\ rec_i = 0
 GridNext == ph = "start" /\ ph' = "vec" /\ (\E av \in ArgVectors : inp' = av) /\ UNCHANGED <<pf, rec_i>>
-GridEmit == ph # "vec" \/ PrintT(ToJson([kind |-> "vec", pf |-> "", cls |-> inp]))
+GridEmit == IF ph = "vec" THEN PrintT(ToJson([kind |-> "vec", pf |-> IF ShortVector(inp) THEN "short" ELSE "", cls |-> inp]))
+            ELSE /\ \A hc \in Huge : PrintT(ToJson([kind |-> "huge", pf |-> hc, cls |-> <<>>]))
+                 /\ \A fc \in Allocating : PrintT(ToJson([kind |-> "allocating", pf |-> fc, cls |-> <<>>]))
+\* laws of the grid itself (both tiers): every value the property names is a class; every class stands alone, in the first and in
+\* the second position of a pair and in the third position; every numeric value has its negative mirror; every route is present
+\* with a negative infinity; a routed huge value is huge; the sub-grid of the quick tier is a sub-grid
+Named == {"undefined", "null", "nan", "inf", "ninf", "m1", "p31", "p53", "e21", "half", "s7", "obj", "arr", "fn"}
+MirrorOf == [nv \in SeqSet(NumVals) |->
+               CASE nv = "inf" -> "ninf" [] nv = "ninf" -> "inf" [] nv = "zero" -> "nzero" [] nv = "nzero" -> "zero" [] nv = "p31" -> "n31" [] nv = "n31" -> "p31"
+                 [] nv = "p53" -> "n53" [] nv = "n53" -> "p53" [] nv = "e21" -> "ne21" [] nv = "ne21" -> "e21" [] nv = "half" -> "nhalf" [] nv = "nhalf" -> "half"
+                 [] OTHER -> nv]
+GridLaw == ph = "start" =>
+             /\ Named \subseteq ArgSet /\ SeqSet(NumVals) \subseteq ArgSet /\ AllRouted \cap ArgSet = Routed /\ QuickRouted \subseteq AllRouted
+             /\ \A nv \in SeqSet(NumVals) : MirrorOf[nv] \in ArgSet /\ MirrorOf[MirrorOf[nv]] = nv
+             /\ \A ac \in ArgSet : /\ <<ac>> \in ArgVectors
+                                   /\ \E av \in ArgVectors : Len(av) = 2 /\ av[1] = ac
+                                   /\ \E av \in ArgVectors : Len(av) = 2 /\ av[2] = ac
+                                   /\ \E av \in ArgVectors : Len(av) = 3 /\ av[3] = ac
+             /\ \A rt \in SeqSet(Routes) : (rt \o "_ninf") \in Routed /\ \E hv \in HugeVals : (rt \o "_" \o hv) \in Routed
+             /\ \A av \in ArgVectors : Len(av) <= 3 /\ \A ai \in 1..Len(av) : av[ai] \in ArgSet
+             /\ Huge \cap AllRouted = {rc \in AllRouted : \E hv \in HugeVals : \E rt \in SeqSet(Routes) : rc = rt \o "_" \o hv}
+             /\ \E av \in ArgVectors : ~ShortVector(av)
+             /\ Cardinality(ArgSet) = Len(CoreClasses) + Len(MirrorClasses) + Len(KindClasses) + Cardinality(Routed)
 
 \* ---------------- literal / statement families (S->C) -----------------------------------------------------------
 \* (a) numeric literals of many digits: form x number of digits x digit x embedding.  The text is rendered by the driver
